@@ -365,7 +365,7 @@ def run_task(task, acc):
                     acc.violation(clause, case, detail, sig=clause + ':' + name)
                 acc.outcome((name, repr(desc(r2))[:60]))
                 if depth == 1 and isinstance(r2, AnsiStr) and len(nxt) < (12 if tier == 'quick' else 40):
-                    ch = model.canon_hash(r2._s)
+                    ch = model.canon_hash(model.content(r2))
                     if ch not in seen:
                         seen.add(ch)
                         acc.state(ch)
